@@ -132,14 +132,14 @@ class RandomOneHot(Contract):
     # ---- exactly the requested shape; the generator advances by one draw per example.  The call-site form above
     # ---- counts positions in calls instead of draws (RNDOH(tape, k, b, p) = CHOICE(tape, pos0 + k*B + b, p)).
     def configs(self):
-        return [dict(rs=r, probs=pr) for r in ('int', 'rng', 'none') for pr in ('none', 'given')] + [dict(rs='int', probs='none', shape='list')]
+        return [dict(rs=r, probs=pr) for r in ('int', 'rng', 'none') for pr in ('none', 'given')] + [dict(rs='int', probs='none', shape=k) for k in ('list', 'tuple2', 'tuple4')]
 
     def scopes(self, cfg):
         return [{'default': 2}, {'default': 1}, {'default': 3}]
 
     def make_args(self, cfg, A):
         B, n, L = A.dim('B', 0), A.dim('n', 1), A.dim('L', 0)
-        shape = (B, n, L) if cfg.get('shape') != 'list' else [B, n, L]
+        shape = {None: (B, n, L), 'list': [B, n, L], 'tuple2': (n, L), 'tuple4': (B, n, L, A.dim('extra', 0))}[cfg.get('shape')]
         probs = None
         if cfg['probs'] == 'given':
             probs = A.tensor('probs', 2, 'real', lib='np', shape=[A.dim('P0', 1), A.dim('P1', 0)])
@@ -150,7 +150,7 @@ class RandomOneHot(Contract):
         return [shape], dict(probs=probs, random_state=rs)
 
     def rejects(self, a, cfg):
-        if not isinstance(a.shape, tuple):
+        if not isinstance(a.shape, tuple) or len(a.shape) != 3:
             return True
         B, n, L = a.shape
         P = a.get('probs')
@@ -203,7 +203,7 @@ class RandomOneHot(Contract):
         def ohe(fr, it):
             sh, rs = state(fr)
             tape, pos0 = O.to_z3(rs.attrs['tape']), rs.attrs['_pos0']
-            return spec_tensor(list(sh), lambda b, c, p: ite(And(b < it, O.eq(c, CHOICE(tape, O.to_z3(pos0 + b), O.to_z3(p)))), 1, 0), lib='np')
+            return spec_tensor(list(sh), lambda b, c, p, *more: ite(And(b < it, O.eq(c, CHOICE(tape, O.to_z3(pos0 + b), O.to_z3(p)))), 1, 0), lib='np')
 
         def rng_state(fr, v, it):
             sh, rs = state(fr)
